@@ -282,7 +282,14 @@ def rule_paths(ctx: Ctx) -> None:
                 if not any(isinstance(x, (ast.Constant, ast.JoinedStr)) and (not isinstance(x, ast.Constant) or isinstance(x.value, str)) for x in (b_.left, b_.right)) and "format(" not in norm(b_.right):
                     # a module-level constant as the literal segment counts too
                     if not (isinstance(b_.right, ast.Name) and isinstance(fn.module.assigns.get(b_.right.id), ast.Constant)):
-                        continue
+                        # ... and so does a chain that has a literal segment further down (`folder / "outputs" / name`): it is the
+                        # maximal expression whose shape is compared, not its literal prefix
+                        chain, lit = b_.left, False
+                        while isinstance(chain, ast.BinOp) and isinstance(chain.op, ast.Div):
+                            lit = lit or (isinstance(chain.right, ast.Constant) and isinstance(chain.right.value, str)) or isinstance(chain.right, ast.JoinedStr)
+                            chain = chain.left
+                        if not lit:
+                            continue
                 io = [c for c in walk_no_nested(fn.node) if isinstance(c, ast.Call) and _last(dotted(c.func) or (c.func.attr if isinstance(c.func, ast.Attribute) else "")) in IO_CALLS]
                 returns = any(isinstance(r, ast.Return) and r.value is not None for r in walk_no_nested(fn.node))
                 text = _path_shape(fn, d_.resolve(b_))
@@ -398,7 +405,16 @@ def rule_rebuild(ctx: Ctx) -> None:
         ctx.tri("4-rebuild", f, f.node, "RunInfo.load(" in t, False, f"{f.name} works from the recorded RunInfo", "", f"{f.name}: RunInfo.load(...) not found", key=f"from-run-info {f.name}")
     lo = P.func("pipefunc.map._load.load_outputs")
     t = Scope(ctx, lo).text()
-    ctx.tri("4-rebuild", lo, lo.node, ".init_store()" in t and "_load_from_store(" in t, False, "load_outputs: RunInfo.load -> init_store -> _load_from_store", "", "rebuild of the store not recognised", key="load-outputs")
+    # the store handed to the loader is the one init_store() rebuilds from the record (backend, shapes, masks per output); a store
+    # assembled by hand in the loader knows none of that
+    d_lo = Defs(lo)
+    lfs = [c for c in ast.walk(lo.node) if isinstance(c, ast.Call) and dotted(c.func).rsplit(".", 1)[-1] == "_load_from_store" and len(c.args) >= 2]
+    stores = [d_lo.resolve(c.args[1]) for c in lfs]
+    rebuilt = bool(stores) and all(".init_store()" in norm(x) for x in stores)
+    by_hand = [x for x in stores if isinstance(x, (ast.Dict, ast.DictComp)) or (isinstance(x, ast.Call) and dotted(x.func) == "dict")]
+    ctx.tri("4-rebuild", lo, lfs[0] if lfs else lo.node, (rebuilt or (not lfs and ".init_store()" in t and "_load_from_store(" in t)), bool(by_hand), "load_outputs: RunInfo.load -> init_store -> _load_from_store",
+            f"load_outputs reads from a store it assembles itself (`{norm(by_hand[0])[:60] if by_hand else ''}`) instead of RunInfo.init_store(): the recorded backend, shape and mask of each output are ignored (array outputs come back as paths / the wrong kind of object)",
+            "rebuild of the store not recognised", key="load-outputs")
     ist = ri.methods["init_store"]
     d = Defs(ist)
     ia_calls = [c for c in ast.walk(ist.node) if isinstance(c, ast.Call) and dotted(c.func) == "_init_arrays"]
@@ -499,6 +515,58 @@ def rule_persist(ctx: Ctx) -> None:  # noqa: C901
             "FileArray.to_array derives the mask from the loaded values: a stored None reloads as missing", "an `is None` test in to_array: whether its operand can hold an unpickled value is not decided", key="mask-from-files")
 
 
+def rule_load_from_given_folder(ctx: Ctx) -> None:
+    """RunInfo.load(F) reads the inputs, the defaults and (through the run_folder it returns) the outputs from F - the folder it
+    was asked for - not from path strings recorded in run_info.json.  Recorded paths are relative to the working directory of the
+    process that wrote them when the run was started with a relative run_folder: a fresh interpreter with another working directory
+    (or a moved folder) then cannot reload the run."""
+    from ..flow import dependence_text
+
+    P = ctx.prog
+    ld = P.cls("pipefunc.map._run_info.RunInfo").methods["load"]
+    fparam = [p_ for p_ in ld.param_names() if p_ not in ("cls", "self")][0]
+    json_names = {t.id for a in ast.walk(ld.node) if isinstance(a, ast.Assign) and any(isinstance(c, ast.Call) and dotted(c.func) in ("json.load", "json.loads") for c in ast.walk(a.value)) for t in a.targets if isinstance(t, ast.Name)}
+    n = 0
+    for c in [c for c in ast.walk(ld.node) if isinstance(c, ast.Call) and dotted(c.func).rsplit(".", 1)[-1] in ("load", "_cached_load") and c.args and dotted(c.func) not in ("json.load",)]:
+        n += 1
+        arg0 = c.args[0]
+        # a path built by a helper from (name, folder): which folder?
+        # where do the names in the path expression come from: followed through local definitions and loop variables, but NOT into
+        # the content of run_info.json (which itself is of course read from the given folder)
+        seen: set[str] = set()
+        todo = [x.id for x in ast.walk(arg0) if isinstance(x, ast.Name)]
+        from_param = rec_dep = False
+        while todo:
+            nm = todo.pop()
+            if nm in seen:
+                continue
+            seen.add(nm)
+            if nm == fparam:
+                from_param = True
+                continue
+            if nm in json_names:
+                rec_dep = True
+                continue
+            for a in ast.walk(ld.node):
+                if isinstance(a, ast.Assign) and any(isinstance(t, ast.Name) and t.id == nm for t_ in a.targets for t in ast.walk(t_)):
+                    todo += [x.id for x in ast.walk(a.value) if isinstance(x, ast.Name)]
+                if isinstance(a, (ast.For, ast.comprehension)) and any(isinstance(t, ast.Name) and t.id == nm for t in ast.walk(a.target)):
+                    todo += [x.id for x in ast.walk(a.iter) if isinstance(x, ast.Name)]
+        _ = dependence_text
+        # the NAME of an input legitimately comes from the recorded keys; what matters is where the folder part comes from
+        ctx.tri("2-paths", ld, c, from_param, rec_dep and not from_param, f"`{norm(c)[:50]}` reads from the folder that was asked for",
+                f"`{norm(c)[:60]}` reads from a path recorded in run_info.json, not from the `{fparam}` it was given: a run started with a relative run_folder cannot be reloaded from another working directory (or after the folder was moved)",
+                f"where `{norm(arg0)[:40]}` points is not recognised", key=f"load-from-given {norm(c.func)} {n}")
+    rf = [a for a in ast.walk(ld.node) if isinstance(a, ast.Assign) and any(isinstance(t, ast.Subscript) and isinstance(t.slice, ast.Constant) and t.slice.value == "run_folder" for t in a.targets)]
+    if rf:
+        v = rf[-1].value
+        own = any(isinstance(x, ast.Name) and x.id == fparam for x in ast.walk(Defs(ld).resolve(v)))
+        stored = any(isinstance(x, ast.Subscript) and isinstance(x.slice, ast.Constant) and x.slice.value == "run_folder" for x in ast.walk(v))
+        ctx.tri("2-paths", ld, rf[-1], own, stored and not own, "the loaded RunInfo points at the folder that was asked for",
+                "the loaded RunInfo keeps the run_folder string recorded in run_info.json: init_store / load_outputs then look for the outputs relative to the current working directory", "origin of run_folder not recognised", key="load-from-given run_folder")
+    ctx.floor("2-paths.loads-in-RunInfo.load", n, 2)
+
+
 def rule_byte_codec(ctx: Ctx) -> None:
     """Every reader of pickled run-folder files undoes exactly the byte-level transforms the writers apply.  The element files are
     written by ONE primitive and read by several (the generic loader, the bulk reader of FileArray that unpickles raw bytes
@@ -537,7 +605,7 @@ def rule_byte_codec(ctx: Ctx) -> None:
 
 
 def check(ctx: Ctx) -> None:
-    for rule in (rule_table, rule_fresh_load, rule_paths, rule_path_names, rule_process, rule_rebuild, rule_persist, rule_byte_codec):
+    for rule in (rule_table, rule_fresh_load, rule_paths, rule_path_names, rule_process, rule_rebuild, rule_persist, rule_byte_codec, rule_load_from_given_folder):
         ctx.run(rule)
 
 
@@ -588,6 +656,7 @@ proxy_fields = _proxy_fields
 
 RIF, R, D, U, FA, L = "pipefunc/map/_run_info.py", "pipefunc/map/_run.py", "pipefunc/map/_storage_array/_dict.py", "pipefunc/_utils.py", "pipefunc/map/_storage_array/_file.py", "pipefunc/map/_load.py"
 MUTANTS = [
+    Mutant("load-from-recorded-paths-F44", "pipefunc/map/_run_info.py", "        data[\"inputs\"] = {k: load(_input_path(k, run_folder)) for k in data.pop(\"input_paths\")}\n", "        data[\"inputs\"] = {k: load(Path(v)) for k, v in data.pop(\"input_paths\").items()}\n", ("C04.2-paths",), why="original F44"),
     Mutant("new-field-not-read", RIF, "        data[\"defaults_path\"] = str(self.defaults_path)\n", "        data[\"defaults_path\"] = str(self.defaults_path)\n        data[\"created\"] = \"now\"\n", ("C04.1-table",)),
     Mutant("masks-keys-not-decoded", RIF, "        for key in [\"shapes\", \"shape_masks\"]:\n            data[key] = {_maybe_str_to_tuple(k): tuple(v) for k, v in data[key].items()}\n",
            "        for key in [\"shapes\"]:\n            data[key] = {_maybe_str_to_tuple(k): tuple(v) for k, v in data[key].items()}\n", ("C04.1-table",)),
